@@ -140,6 +140,10 @@ static int read_inode_file_ext(sqfs_meta_reader_t *ir, sqfs_inode_t *base,
 	count = get_block_count(file.file_size, block_size,
 				file.fragment_idx, file.fragment_offset);
 
+	/* the payload size fields of the inode are 32 bit wide */
+	if (count > (0xFFFFFFFFUL / sizeof(sqfs_u32)))
+		return SQFS_ERROR_OVERFLOW;
+
 	out = alloc_flex(sizeof(*out), sizeof(sqfs_u32), count);
 	if (out == NULL) {
 		return errno == EOVERFLOW ? SQFS_ERROR_OVERFLOW :
@@ -178,6 +182,10 @@ static int read_inode_slink(sqfs_meta_reader_t *ir, sqfs_inode_t *base,
 
 	SWAB32(slink.nlink);
 	SWAB32(slink.target_size);
+
+	/* target plus terminator must fit the 32 bit payload size fields */
+	if (slink.target_size == 0xFFFFFFFF)
+		return SQFS_ERROR_OVERFLOW;
 
 	if (SZ_ADD_OV(slink.target_size, 1, &size) ||
 	    SZ_ADD_OV(sizeof(*out), size, &size)) {
@@ -269,6 +277,13 @@ static int read_inode_dir_ext(sqfs_meta_reader_t *ir, sqfs_inode_t *base,
 		SWAB32(ent.start_block);
 		SWAB32(ent.index);
 		SWAB32(ent.size);
+
+		/* the payload size fields of the inode are 32 bit wide */
+		if ((sqfs_u64)index_used + sizeof(ent) + ent.size + 1 >
+		    0xFFFFFFFFUL) {
+			free(out);
+			return SQFS_ERROR_OVERFLOW;
+		}
 
 		new_sz = index_max;
 		while (sizeof(ent) + ent.size + 1 > new_sz - index_used) {
